@@ -13,19 +13,21 @@ from vlib import e2e, seqgen
 ID = "C03"
 LEVEL = "exploration"
 ENGINE = "e2e-reference"
-TECHNIQUE = "metamorphic run pairs (reordering on/off, register insertion order, relabelling) compared by qubit id; live read-out of the chosen permutation; isolated contract on permute_results"
+TECHNIQUE = "metamorphic run pairs (reordering on/off, register insertion order, relabelling) compared by qubit id; live read-out of the chosen permutation and a twin run on the register inserted in that very order with optimisation off (must coincide to 1e-8); isolated contract on permute_results"
 LEVEL_TEXT = ("Exploration: generated sequences with per-atom drives (retargeted local channel, DMM), SLM masks, initial states, 3-16 atoms whose "
               "insertion order differs from the spatial order; occupations, correlation matrices, energies, variances, atom_order and bitstring "
               "marginals of the four variants must agree atom by atom (by id) to the high-accuracy TDVP tolerance; results must list atoms in "
               "register order.")
 LEVEL_NOTE = "TDVP's own dependence on the site order is a projection-level effect that `precision` does not bound; runs use precision 1e-10, dt=2, moderate energies; numerical tolerance 2e-2, permuted-values detection at 1e-4; bitstring marginals vs occupations at 6 sigma."
 RULE = "(N, channels, SLM, initial state, layout); distinct = structural fingerprint; non-trivial = the optimiser chose a non-identity permutation in V0 or V2 and some atom's occupation exceeds 1e-3"
-ASSUMPTIONS = ["TDVP's projection error depends on the site order and is not controlled by `precision` (measured 5e-3 on an XY run from an entangled state): "
+ASSUMPTIONS = ["the optimised run and its same-chain-order twin (optimisation off) perform the same floating-point operations: they must agree to 1e-8 (observed: bit-identical)",
+               "loose comparison with the unoptimised run: LOOSE, or - when exceeded and N <= 10 - the sum of the two runs' measured distances to exact evolution of their own recorded parameters",
+               "TDVP's projection error depends on the site order and is not controlled by `precision` (measured 5e-3 on an XY run from an entangled state): "
                "variants may differ numerically by up to 2e-2 (occupations, correlations, energy/(1+|E|)), variance by 5%; a difference above 1e-4 "
                "whose values re-appear on other atoms (same multiset to 2e-6) is a permutation error regardless of size",
                "bitstring marginal of atom i within 6*sqrt(p(1-p)/shots)+2e-3 of its occupation"]
 LOOSE, TIGHT = 2e-2, 2e-6
-REQUIRED = ["variant_runs", "pairs_compared", "nonidentity_permutations", "permute_results_contract_checks"]
+REQUIRED = ["variant_runs", "pairs_compared", "nonidentity_permutations", "permute_results_contract_checks", "same_order_twins_compared"]
 SHARD_TIMEOUT = {"quick": 1700, "thorough": 5 * 3600}
 
 
